@@ -2183,6 +2183,32 @@ def gen_C09(tier, rng):
                 cases.append(case("sum_k", ins, "sum_beyond_rank" if k > len(s) else "sum_k"))
                 if k > len(s):
                     cases[-1]["refusal_ok"] = True
+    # the two flags of a handle driven apart BEFORE the operation: stop_tracking() on a tracked leaf (not tracked, but
+    # still keeping gradients) and untracked() followed by start_tracking() (tracked, not keeping): for every
+    # operation the result is tracked exactly when an operand's TRACKING flag is set
+    ops_all = unary + [("ln",), ("recip",), ("reshape", [4]), ("add",), ("mul",), ("sub",), ("div",),
+                       ("matmul", False, False), ("matmul", False, True), ("conv", 1, 1), ("axpy", 0.5)]
+    for op in ops_all:
+        binary = op[0] in ("add", "mul", "sub", "div", "matmul", "axpy", "conv")
+        for state in ("stop", "untracked_start", "stop_start", "untracked"):
+            for other_tracked in ((False, True) if binary else (False,)):
+                dims = [2, 2] if op[0] != "conv" else [1, 2, 2]
+                ins = [("leaf", True, dims, [1.0, 2.0, 3.0, 4.0])]
+                ins += {"stop": [("stop", 0)], "untracked_start": [("untracked", 0), ("start", 0)],
+                        "stop_start": [("stop", 0), ("start", 0)], "untracked": [("untracked", 0)]}[state]
+                args = [0]
+                if binary:
+                    ins.append(("leaf", other_tracked, dims if op[0] != "conv" else [1, 1, 1, 1],
+                                [2.0, 1.0, 1.0, 3.0] if op[0] != "conv" else [2.0]))
+                    args = [0, len(ins) - 1]
+                    if rng.random() < 0.5 and op[0] != "conv":
+                        args.reverse()
+                ins.append(("op", op, args))
+                r = len(ins) - 1
+                ins += [("obs", r), ("obs", 0)]
+                if state in ("untracked_start", "stop_start") or (binary and other_tracked):
+                    ins += [("backward", r, None), ("grad", 0), ("obs", r), ("probe", 0)]
+                cases.append(case("flags_apart", ins, "flags_driven_apart_before:%s" % op[0], rtol=1e-9))
     # the rank-1 dot product with a one-element additive term under every tracking mask; afterwards the term is
     # used in an unrelated second computation and must collect that gradient too (nothing of the first pass is left)
     for n in (1, 2, 3):
